@@ -303,39 +303,48 @@ structure G where
   panic : Bool := false        -- yield was called after it had returned false (Go runtime panic)
   deriving DecidableEq, Repr
 
-/-- call the consumer; `stopAt = some k`: it returns false at its k-th call (0-based) -/
-def G.yield (g : G) (stopAt : Option Nat) (cb : Cb) : G × Bool :=
-  if g.stopped then ({ g with panic := true }, false)
-  else
-    let k := g.cbs.length
-    let g' := { g with cbs := g.cbs ++ [cb] }
-    if stopAt == some k then ({ g' with stopped := true }, false) else (g', true)
+/-- the consumer is called; `stopAt = some k`: it returns false at its k-th call (0-based).
+    `yieldOk`: what it returns; `yielded`: the state afterwards.  Calling it again after it has
+    returned false is the Go runtime panic "range function continued iteration after function for
+    loop body returned false". -/
+def G.yieldOk (g : G) (stopAt : Option Nat) : Bool :=
+  !g.stopped && stopAt != some g.cbs.length
+
+def G.yielded (g : G) (stopAt : Option Nat) (cb : Cb) : G :=
+  if g.stopped then { g with panic := true }
+  else { g with cbs := g.cbs ++ [cb], stopped := stopAt == some g.cbs.length }
 
 def incomplete (openN lit : Nat) : Bool := openN > 0 || lit > 0
 
+/-- `wrappedReader.Read` up to the call of the underlying reader -/
+def readTail (stopAt : Option Nat) (g : G) (nl : Bool) (line openN lit : Nat) (err inStmt : Bool) : G :=
+  if nl && line > g.lastLine then
+    if incomplete openN lit then
+      let g' := g.yielded stopAt { stmts := g.acc, inc := true, err := err, fromRead := true, inStmt := inStmt }
+      -- `return 0, io.EOF` before lastLine is updated when the consumer stops
+      if g.yieldOk stopAt then { g' with lastLine := line } else g'
+    else if g.acc.isEmpty then
+      let g' := g.yielded stopAt { stmts := [], inc := false, err := err, fromRead := true, inStmt := inStmt }
+      if g.yieldOk stopAt then { g' with lastLine := line } else g'
+    else { g with lastLine := line }
+  else g
+
+/-- the body of the `for stmts, err := range p.StmtsSeq(&w)` loop after the append -/
+def stmtTail (stopAt : Option Nat) (g : G) (err tokNewl : Bool) (line openN lit : Nat) : G :=
+  if err then
+    let g' := g.yielded stopAt { stmts := g.acc, inc := incomplete openN lit, err := true, fromRead := false, inStmt := false }
+    if g'.panic || g.yieldOk stopAt then g' else { g' with done := true }
+  else if tokNewl then
+    let g' := g.yielded stopAt { stmts := g.acc, inc := incomplete openN lit, err := false, fromRead := false, inStmt := false }
+    if g'.panic then g'
+    else if g.yieldOk stopAt then { g' with acc := [], lastLine := line + 1 } else { g' with done := true }
+  else g
+
 def step (stopAt : Option Nat) (g : G) : Ev → G
   | .read nl line openN lit err inStmt =>
-    if g.done || g.panic then g else
-    if nl && line > g.lastLine then
-      if incomplete openN lit then
-        let (g', ok) := g.yield stopAt { stmts := g.acc, inc := true, err := err, fromRead := true, inStmt := inStmt }
-        if ok then { g' with lastLine := line } else g'      -- `return 0, io.EOF` before lastLine is updated
-      else if g.acc.isEmpty then
-        let (g', ok) := g.yield stopAt { stmts := [], inc := false, err := err, fromRead := true, inStmt := inStmt }
-        if ok then { g' with lastLine := line } else g'
-      else { g with lastLine := line }
-    else g
+    if g.done || g.panic then g else readTail stopAt g nl line openN lit err inStmt
   | .stmt id err tokNewl line openN lit =>
-    if g.done || g.panic then g else
-    let g := { g with acc := g.acc ++ [id] }
-    if err then
-      let (g', ok) := g.yield stopAt { stmts := g.acc, inc := incomplete openN lit, err := true, fromRead := false, inStmt := false }
-      if g'.panic then g' else if ok then g' else { g' with done := true }
-    else if tokNewl then
-      let (g', ok) := g.yield stopAt { stmts := g.acc, inc := incomplete openN lit, err := false, fromRead := false, inStmt := false }
-      if g'.panic then g' else
-      if ok then { g' with acc := [], lastLine := line + 1 } else { g' with done := true }
-    else g
+    if g.done || g.panic then g else stmtTail stopAt { g with acc := g.acc ++ [id] } err tokNewl line openN lit
 
 def runFrom (stopAt : Option Nat) (g : G) (tr : List Ev) : G := tr.foldl (step stopAt) g
 
